@@ -244,7 +244,7 @@ MASK = 'lt_mask(%s, self.epsilon)' % P_
 RANDOM = 'draw_um(next_uv(%s, rows(contexts)), n_true(%s), slen(self.arms))' % (S0, MASK)
 ANY_IA = '(mat_at(%s, rank_true(%s, i), pos(self.arms, a)) if at(%s, i) < self.epsilon else %s)' % (RANDOM, MASK, P_, DET_IA)
 fn('linear._Linear._vectorized_predict_context', props='C02 C08 C09 C10',
-   params={'contexts': 'mat', 'is_predict': 'bool'}, result=vec_result,
+   params={'contexts': 'mat', 'is_predict': 'flag'}, result=vec_result,
    requires=['INV', 'not is_none(self.num_features)', 'cols(contexts) == self.num_features', 'rows(contexts) >= 1',
              'slen(self.arms) > 0'],
    modifies=['self.rng.rng.state', 'self.arm_to_model[*]'],
